@@ -371,7 +371,14 @@ func runC07(c *Check, w *World) {
 		entries = append(entries, f)
 	}
 	for _, f := range w.ModuleFuncs(WasmPath) {
-		if len(w.CallSites(f)) == 0 || f.Name() == "main" {
+		// entry points of the binding: no call site inside the module (JS-registered functions are called from syscall/js)
+		inModule := 0
+		for _, s := range w.CallSites(f) {
+			if w.InModule(s.Parent()) {
+				inModule++
+			}
+		}
+		if inModule == 0 || f.Name() == "main" {
 			entries = append(entries, f)
 		}
 	}
